@@ -227,6 +227,10 @@ func RunLifecycle(t *testing.T, sc *LScenario, emit func(*LifeObs)) {
 		runAcceptRace(sc, emit)
 		return
 	}
+	if sc.Phase == "callback" {
+		runCallbackStop(sc, emit)
+		return
+	}
 	func() {
 		baseGid := maxGoroutineID()
 		quiesce := func() { time.Sleep(15 * time.Millisecond) }
@@ -504,6 +508,61 @@ func runAcceptRace(sc *LScenario, emit func(*LifeObs)) {
 	case <-time.After(500 * time.Millisecond):
 	}
 	time.Sleep(50 * time.Millisecond)
+	o.Leaked = libraryGoroutines(false, baseGid)
+	if o.Leaked == nil {
+		o.Leaked = []string{}
+	}
+	_ = conn.Close()
+	emit(o)
+}
+
+
+// runCallbackStop: the application turns a client away inside the acceptor's new-client callback (handler.Stop(), or closing the
+// acceptor from there), i.e. BEFORE the handler's Run has started, while the peer has already hung up (cause2 = peer_close /
+// peer_reset) or is still connected (cause2 = ""): everything still winds down.
+func runCallbackStop(sc *LScenario, emit func(*LifeObs)) {
+	baseGid := maxGoroutineID()
+	o := &LifeObs{K: "life", ID: sc.ID, Scenario: *sc, Leaked: []string{}, ReachedPhase: true, Notified: true, SendersDone: true, SendReturned: true}
+	conn := NewLifeConn()
+	switch sc.Cause2 {
+	case "peer_close":
+		conn.in <- inEvent{err: io.EOF}
+	case "peer_reset":
+		conn.in <- inEvent{err: errors.New("read: connection reset by peer")}
+	}
+	lst := &ScriptListener{conns: make(chan net.Conn, 1), closed: make(chan struct{})}
+	var acc *simplefixgo.Acceptor
+	called := make(chan struct{}, 1)
+	acc = simplefixgo.NewAcceptor(lst, simplefixgo.NewAcceptorHandlerFactory(fixgen.FieldMsgType, sc.Buf), 150*time.Millisecond,
+		func(ah simplefixgo.AcceptorHandler) {
+			time.Sleep(time.Duration(sc.GapMs) * time.Millisecond) // the reader has met the hang-up by now
+			if sc.Cause == "local_close" {
+				acc.Close()
+			} else {
+				ah.Stop()
+			}
+			called <- struct{}{}
+		})
+	serveDone := make(chan struct{})
+	go func() { _ = acc.ListenAndServe(); close(serveDone) }()
+	lst.conns <- conn
+	select {
+	case <-called:
+	case <-time.After(2 * time.Second):
+		o.ReachedPhase = false
+	}
+	for i := 0; i < 100 && !conn.IsClosed(); i++ {
+		time.Sleep(5 * time.Millisecond)
+	}
+	o.SockClosed = conn.IsClosed()
+	acc.Close()
+	_ = lst.Close()
+	select {
+	case <-serveDone:
+		o.ServeReturned = true
+	case <-time.After(500 * time.Millisecond):
+	}
+	time.Sleep(80 * time.Millisecond)
 	o.Leaked = libraryGoroutines(false, baseGid)
 	if o.Leaked == nil {
 		o.Leaked = []string{}
